@@ -168,7 +168,7 @@ class Check:
             for fmt, ot in combos(case, self.rng):
                 names = names_for(fmt, case["vals"], random.Random(sha([case["vals"], fmt])))
                 ids = ids_for(fmt, case["vals"], names)
-                req = alg.request(case, ids, ot not in SUMS_ONLY)
+                req = alg.request(case, ids, ot not in SUMS_ONLY, outtype=ot)
                 lines.setdefault(req, len(lines))
                 plan.append((case, fmt, ot, names, ids, req))
         answers = model_query(list(lines))
@@ -178,7 +178,7 @@ class Check:
         for (case, fmt, ot, names, ids, req), got in zip(plan, gots):
             alg = ALGS[case["alg"]]
             ans = answers[lines[req]]
-            if "bad" in ans:
+            if isinstance(ans, dict) and "bad" in ans:
                 raise InfraError(f"driver rejected request {req!r}: {ans}")
             if id(case) not in counted:
                 counted.add(id(case))
